@@ -114,8 +114,33 @@ pub fn const_ops(v: VT, k: i64) -> Vec<Operator<'static>> {
     }
 }
 
+/// The harness's own mapping of a generator value type to wasmparser's (independent of the
+/// library's `From<&DataType>` conversions: this is what decoded output is compared with).
 pub fn wasmparser_valtype(v: VT) -> wasmparser::ValType {
-    wasmparser::ValType::from(&dt(v))
+    use wasmparser::{AbstractHeapType as A, HeapType, RefType, ValType as W};
+    let abs = |ty: A, nullable: bool| W::Ref(RefType::new(nullable, HeapType::Abstract { shared: false, ty }).expect("abstract reference type"));
+    let conc = |t: u32, nullable: bool| W::Ref(RefType::new(nullable, HeapType::Concrete(wasmparser::UnpackedIndex::Module(t))).expect("concrete reference type"));
+    const ABS: [A; 12] = [A::Func, A::Extern, A::Any, A::None, A::NoExtern, A::NoFunc, A::Eq, A::Struct, A::Array, A::I31, A::Exn, A::NoExn];
+    match v {
+        VT::I32 => W::I32,
+        VT::I64 => W::I64,
+        VT::F32 => W::F32,
+        VT::F64 => W::F64,
+        VT::V128 => W::V128,
+        VT::Func => abs(A::Func, true),
+        VT::Extern => abs(A::Extern, true),
+        VT::Exn => abs(A::Exn, true),
+        VT::Any => abs(A::Any, true),
+        VT::Eq => abs(A::Eq, true),
+        VT::I31 => abs(A::I31, true),
+        VT::StructR => abs(A::Struct, true),
+        VT::ArrayR => abs(A::Array, true),
+        VT::NoneR => abs(A::None, true),
+        VT::RefNull(t) => conc(t, true),
+        VT::RefNN(t) => conc(t, false),
+        VT::FuncNN => abs(A::Func, false),
+        VT::Abs(k, n) => abs(ABS[k as usize % 12], n),
+    }
 }
 
 #[derive(Clone, Debug)]
@@ -1478,7 +1503,16 @@ impl EditDriver {
                 };
                 let ty = match target {
                     Some(g) => w.g[g as usize].ty,
-                    None => *c.t.pick(&[VT::I32, VT::I64, VT::F32, VT::F64, VT::V128, VT::Func, VT::Extern]),
+                    None => {
+                        let ty = *c.t.pick(&[VT::I32, VT::I64, VT::F32, VT::F64, VT::V128, VT::Func, VT::Extern]);
+                        // half of the externref picks become some other nullable abstract
+                        // reference type (ref.null initialiser); by position, not a tape read
+                        if ty == VT::Extern && (k as usize + w.g.len()) % 2 == 0 {
+                            VT::Abs(((k as usize * 5 + w.g.len() * 3) % 12) as u8, true)
+                        } else {
+                            ty
+                        }
+                    }
                 };
                 let mutable = c.t.bool();
                 let (instr, wi): (InitInstr, WI<'static>) = match ty {
@@ -1548,12 +1582,17 @@ impl EditDriver {
                 let uniq = 9000 + k;
                 let mut get = None;
                 let mut reff = None;
+                let mut ty = ty;
                 if ty == VT::Func {
                     let live = w.live_f();
                     if live.is_empty() {
                         return Ok(());
                     }
                     reff = Some(*c.t.pick(&live));
+                    // ref.func is a non-null constant: half of these globals are declared (ref func)
+                    if (k as usize + w.g.len()) % 2 == 0 {
+                        ty = VT::FuncNN;
+                    }
                 } else if c.t.chance(1, 4) {
                     let cand: Vec<u32> = w.live_g().into_iter().filter(|g| w.g[*g as usize].import && !w.g[*g as usize].mutable && w.g[*g as usize].ty == ty).collect();
                     if !cand.is_empty() {
@@ -1595,7 +1634,12 @@ impl EditDriver {
                 ap.kinds.push(if op == "add_global" { "add_global" } else { "iter_add_global" });
             }
             "add_imported_global" => {
-                let ty = *c.t.pick(&[VT::I32, VT::I64, VT::F32, VT::F64]);
+                let mut ty = *c.t.pick(&[VT::I32, VT::I64, VT::F32, VT::F64]);
+                // an imported global needs no initialiser: one time in three any abstract
+                // reference type in either nullability (by position, not a tape read)
+                if (k as usize + w.g.len()) % 3 == 0 {
+                    ty = VT::Abs(((k as usize * 7 + w.g.len()) % 12) as u8, (k as usize / 3 + w.g.len()) % 2 == 0);
+                }
                 let mutable = c.t.chance(1, 3);
                 let (mo, na) = ("gi".to_string(), format!("g{}", k));
                 let had_locals = w.g.iter().any(|g| !g.import && !g.deleted);
